@@ -498,6 +498,9 @@ CONTEXT_STRINGS = [
 ]
 
 
+THOROUGH_KEEP = {'*': 0.6}      # see vf/runner.py (time: about 10 minutes per thorough tier)
+
+
 def cases(tier, seed):
     out = []
     out.append({'name': 'validate-models', 'kind': 'call', 'fn': 'validate_task',
